@@ -282,7 +282,7 @@ pub fn run(ctx: &Ctx, report: &mut Report) {
         checked per issue. Non-trivial = zone with a delegation whose server lies below a different cut, or >= 3 distinct issue kinds."
         .into();
     report.assumptions.push("vmodel::zone::validate encodes the documented checks 2, 3, 5-10 (DESIGN.md Appendix D)".into());
-    run_prop(ctx, report, PropSpec { name: "validate", cases: ctx.tier.pick(300_000, 4_000_000), max_shrink_iters: 8192 }, case_strategy, oracle);
+    run_prop(ctx, report, PropSpec { name: "validate", cases: ctx.tier.pick(1_000_000, 8_000_000), max_shrink_iters: 8192 }, case_strategy, oracle);
 }
 
 pub fn replay(_check: &str, case: &serde_json::Value) -> Verdict {
